@@ -33,7 +33,10 @@ func (g *gen) pick(label string, weights ...int) int {
 	// rapid's integer generators favour small values; spread them so the weights mean what they say
 	// (0 still maps to the first option, which is where shrinking ends up)
 	u := rapid.Uint64().Draw(g.rt, label)
-	x := int((u * 0x9E3779B97F4A7C15 >> 33) % uint64(total))
+	x := int(u) // small raw values select directly, so shrinking can steer the choice
+	if u >= uint64(total) {
+		x = int((u * 0x9E3779B97F4A7C15 >> 33) % uint64(total))
+	}
 	for i, w := range weights {
 		if x < w {
 			return i
@@ -725,7 +728,7 @@ func (g *gen) document() ([]byte, docInfo) {
 	case 3:
 		lead = strings.Repeat(" ", g.intn("leadlong", 100, 5000))
 	}
-	if len(lead) >= 128 && v.k == 'a' && len(v.a) > 0 && stats.Known(kLongWS) {
+	if len(lead) >= 128 && v.k == 'a' && stats.Known(kLongWS) {
 		g.c.Excluded(kLongWS)
 		lead = lead[:127]
 	}
